@@ -224,7 +224,7 @@ Lemma browse_cases fs hide pages confs m req ae archive :
   let out := browse fs hide pages confs m req ae archive in
   out = serve_file fs hide pages [SLASH] m req ae \/
   out = Status 501 \/ out = Status 404 \/
-  (exists u, out = Redirect 301 (http_redirect req (escape_path (u ++ [SLASH]))) /\
+  (exists u, out = Redirect 301 (http_redirect req (escape_path (trim_dslash u ++ [SLASH]))) /\
              u = (match req with [] => [SLASH] | _ => req end) /\ ends_with_slash u = false /\
              exists d, fs_open fs req = Some d /\ n_dir d = true) \/
   (out = Listing (filter (fun k => negb (is_hidden fs hide k)) (children fs (jail req))) /\ archive = []) \/
@@ -530,19 +530,20 @@ Proof.
 Qed.
 
 Lemma browse_redirect fs hide pages confs m req ae archive code loc :
-  rooted req -> has_prefix req [SLASH; SLASH] = false ->
+  rooted req ->
   browse fs hide pages confs m req ae archive = Redirect code loc ->
   one_slash loc = true /\ same_origin loc = true.
 Proof.
-  intros Hroot Hp H.
+  intros Hroot H.
   pose proof (browse_cases fs hide pages confs m req ae archive) as C. cbv zeta in C. rewrite H in C.
   destruct C as [C|[C|[C|[C|[C|C]]]]]; try discriminate.
   - symmetry in C. apply static_redirect in C; [tauto|exact Hroot].
   - destruct C as (u & C & Eu & Hends & _). injection C as -> ->.
-    destruct Hroot as (t & ->). subst u. apply redirect_ok. apply one_slash_snoc; [|exact Hends].
-    cbn [one_slash]. rewrite N.eqb_refl. cbn [andb]. destruct t as [|d t']; [reflexivity|].
-    cbn [has_prefix] in Hp. rewrite N.eqb_refl in Hp. cbn [andb] in Hp.
-    rewrite has_prefix_nil in Hp. rewrite andb_true_r in Hp. rewrite Hp. reflexivity.
+    assert (Hu : u = req) by (destruct Hroot as (t & ->); exact Eu). clear Eu. subst u.
+    apply redirect_ok. apply one_slash_snoc; [apply trim_dslash_one; exact Hroot|].
+    destruct (trim_dslash_suffix req) as (pre & E & Hne).
+    rewrite E in Hends. rewrite ends_with_slash_app_suffix in Hends; [exact Hends|].
+    apply Hne. destruct Hroot as (t & ->). discriminate.
   - destruct C as [C _]. discriminate.
   - destruct C as [C _]. discriminate.
 Qed.
@@ -726,14 +727,13 @@ Lemma site_sound (s : site) (r : request) :
       forall k, In k ms -> In k (s_fs s) /\ is_desc (jail (q_path r)) (n_path k) = true /\
                            has_prefix (n_path k) (jail (q_path r)) = true
   | Redirect code loc =>
-      rooted (q_path r) -> has_prefix (q_path r) [SLASH; SLASH] = false ->
-      one_slash loc = true /\ same_origin loc = true
+      rooted (q_path r) -> one_slash loc = true /\ same_origin loc = true
   | Status _ => True
   end.
 Proof.
   destruct (handle_cases s r) as [E|E]; [rewrite E; exact I|].
   destruct (handle s r) as [c|c loc|n enc|kids|ms] eqn:H; [exact I| | | |]; symmetry in E.
-  - intros Hr Hp. eapply browse_redirect; eassumption.
+  - intros Hr. eapply browse_redirect; eassumption.
   - apply browse_serve in E.
     destruct (serve_file_serve _ _ _ _ _ _ _ _ _ E) as (Hm & Hin & Hs & Hn).
     repeat split; auto; try (apply Hn; assumption).
@@ -770,13 +770,4 @@ Proof.
   eexists. exists {| n_path := bs "/Casketfile"; n_dir := false; n_id := 12 |}.
   split; [vm_compute; reflexivity|]. split; [|split; vm_compute; reflexivity].
   vm_compute. repeat (first [left; reflexivity | right]).
-Qed.
-
-Lemma browse_redirect_same_origin_refuted :
-  exists fs hide pages confs req code loc,
-  rooted req /\ browse fs hide pages confs 0 req [] [] = Redirect code loc /\ same_origin loc = false.
-Proof.
-  exists fixture_fs, gen_c02_hide, gen_default_index_pages,
-         [{| b_scope := [SLASH]; b_types := [] |}], (bs "//evil.example/..").
-  eexists. eexists. split; [eexists; reflexivity|]. split; vm_compute; reflexivity.
 Qed.
